@@ -1,6 +1,25 @@
 package main
 
+func allOrder() map[string]bool {
+	return map[string]bool{"ORDER": true, "SLOT": true, "COMMITPOINT": true, "COMMIT-ERROR-PATH": true, "ROLLBACK-ON-EVERY-FAILURE": true,
+		"FINALIZE": true, "READER-IS-PASSIVE": true, "WHO-MAY-SWITCH": true}
+}
+
 func init() {
+	register(&propertyDef{
+		id:      "C15",
+		explain: "LIFECYCLE",
+		run: func(p *Program, rep *Report, tier string) {
+			guard(rep, "LIFECYCLE", func() { ruleLIFECYCLE(p, rep) })
+		},
+	})
+	register(&propertyDef{
+		id:      "C01",
+		explain: "ORDER etc.",
+		run: func(p *Program, rep *Report, tier string) {
+			guard(rep, "ORDER", func() { ruleORDER(p, rep, allOrder()) })
+		},
+	})
 	register(&propertyDef{
 		id:      "C09",
 		explain: "LOCKS: lock pairing and API lock contracts on every exit of every exported root, decided by abstract interpretation of the SSA with a lock-state property automaton (see DESIGN.md C09).",
